@@ -607,6 +607,7 @@ class Interp:
     # -- whole (sub)query
     def query(self, actions, filename, absolute, input_value, has_input, extra):
         fr = _Frame(copy.deepcopy(input_value) if has_input else None, copy.deepcopy(DEFAULT_VARS))
+        fr.volatile = bool(has_input)     # everything computed from an injected value is volatile (C05)
         n = len(actions)
         for i in range(n):
             fr = self.step(fr, actions, i, absolute, input_value, has_input, extra if i == n - 1 else None)
@@ -767,7 +768,9 @@ class CacheSim(Interp):
             fr = self.query(actions, None, absolute, input_value, has_input, extra).copy()
             fr.filename = str(filename)
         elif n == 0:
-            return _Frame(copy.deepcopy(input_value) if has_input else None, copy.deepcopy(DEFAULT_VARS))
+            fr0 = _Frame(copy.deepcopy(input_value) if has_input else None, copy.deepcopy(DEFAULT_VARS))
+            fr0.volatile = bool(has_input)
+            return fr0
         else:
             pre = self.query(actions[:-1], None, absolute, input_value, has_input, None)
             fr = self.step(pre, actions, n - 1, absolute, input_value, has_input, extra)
